@@ -548,17 +548,39 @@ func (c *Ctx) ruleScanTrace() {
 					}
 				}
 			}
-		case *ast.IfStmt:
-			if call, ok := ast.Unparen(x.Cond).(*ast.CallExpr); ok {
-				if cal := callee(g.Pkg, call); cal != nil && cal.Name() == "HasStackTrace" && len(x.Body.List) > 0 {
-					if _, isRet := x.Body.List[len(x.Body.List)-1].(*ast.ReturnStmt); isRet {
-						once = true
-					}
+		}
+		return true
+	})
+	// attached once: every path to the loop that emits the frames crosses the "has no trace yet" edge of a test of
+	// HasStackTrace (whatever form the test has: own if, operand of ||, switch case)
+	var emit ast.Node
+	ast.Inspect(g.Decl.Body, func(n ast.Node) bool {
+		switch x := n.(type) {
+		case *ast.ForStmt:
+			if emit == nil {
+				emit = x.Body
+				if x.Init != nil {
+					emit = x.Init
 				}
+			}
+		case *ast.RangeStmt:
+			if emit == nil {
+				emit = x.X
 			}
 		}
 		return true
 	})
+	if emit != nil {
+		gcf := buildCFG(g.Decl.Body)
+		once = gcf.establishedAt(emit, func(cond ast.Expr, trueEdge bool) bool {
+			if call, ok := ast.Unparen(cond).(*ast.CallExpr); ok {
+				if cal := callee(g.Pkg, call); cal != nil && cal.Name() == "HasStackTrace" {
+					return !trueEdge
+				}
+			}
+			return false
+		}, nil)
+	}
 	if down {
 		r.Ok("C07-SCAN-TRACE", "innermost first", "the stack is walked from its top (len-1) down to 0", c.pos(g.Decl.Pos()))
 	} else {
